@@ -4,7 +4,7 @@
 Require Import ExtrOcamlBasic.
 From CJ Require Import Base Dbl Tree LibcNum MinifyDefs PointerDefs CompareDefs ParseDefs ParseEntry.
 Extraction Language OCaml.
-Extraction "model.ml"
+Extraction "model_base.ml"
   Base.cstr Dbl.sf_of_bits Dbl.bits_of_sf Dbl.sat_int Dbl.compare_double Tree.node_size Tree.subtree
   MinifyDefs.cJSON_Minify MinifyDefs.minify_spec
   PointerDefs.cJSONUtils_GetPointerCaseSensitive PointerDefs.cJSONUtils_GetPointer
